@@ -29,7 +29,7 @@ import verus_run  # noqa: E402
 
 REPO = Path(os.environ.get("VERIF_REPO", "/repo"))
 CONTRACTS = VERIF / "contracts"
-CACHE = VERIF / ".cache"
+CACHE = Path(os.environ.get("VERIF_CACHE", str(VERIF / ".cache")))   # build / scratch directory (override to run two checks of one property side by side)
 JOBS = int(os.environ.get("VERIF_JOBS", "16"))
 KANI_ENV = dict(os.environ, RUSTFLAGS="--cfg dsi_bitstream_verif", CARGO_NET_OFFLINE="true",
                 CARGO_TERM_COLOR="never")
